@@ -216,6 +216,58 @@ fn mode_scripted(case: &Value) -> Value {
 }
 
 #[derive(Clone)]
+struct Recorder {
+    name: String,
+    log: Rc<RefCell<Vec<Value>>>,
+    output: Option<String>,
+}
+
+impl Command for Recorder {
+    fn name(&self) -> String {
+        self.name.clone()
+    }
+    fn clone_and_box(&self) -> Box<dyn Command> {
+        Box::new(self.clone())
+    }
+    fn run(&self, context: CommandInvocationContext) -> CommandResult {
+        self.log.borrow_mut().push(json!({"command": self.name, "arguments": context.arguments}));
+        CommandResult::Continue(self.output.clone())
+    }
+}
+
+/// the SDK plus recording commands (default: one named "c" returning "true")
+fn mode_scripted_sdk(case: &Value) -> Value {
+    let mut context = Context::new();
+    if let Err(error) = duckscriptsdk::load(&mut context.commands) {
+        return json!({"ok": false, "error": error_json(&error)});
+    }
+    let log = Rc::new(RefCell::new(vec![]));
+    let names = case["recorders"].as_array().cloned().unwrap_or(vec![json!("c")]);
+    for n in names {
+        let out = case["recorder_output"].as_str().unwrap_or("true").to_string();
+        context.commands.set(Box::new(Recorder { name: n.as_str().unwrap().to_string(), log: log.clone(), output: Some(out) })).unwrap();
+    }
+    if let Some(vars) = case["vars"].as_object() {
+        for (k, v) in vars {
+            context.variables.insert(k.clone(), v.as_str().unwrap_or("").to_string());
+        }
+    }
+    let script = case["script"].as_str().unwrap_or("");
+    let outcome = runner::run_script(script, context, None);
+    let logv = log.borrow().clone();
+    match outcome {
+        Ok(context) => {
+            let mut vars = serde_json::Map::new();
+            for (k, v) in &context.variables {
+                vars.insert(k.clone(), json!(v));
+            }
+            json!({"ok": true, "vars": vars, "log": logv})
+        }
+        Err(error) => json!({"ok": false, "error": error_json(&error), "log": logv}),
+    }
+}
+
+#[derive(Clone)]
 struct Named {
     name: String,
     aliases: Vec<String>,
@@ -284,6 +336,7 @@ fn main() {
                 "sdk" => mode_sdk(&c),
                 "scripted" => mode_scripted(&c),
                 "registry" => mode_registry(&c),
+                "scripted_sdk" => mode_scripted_sdk(&c),
                 _ => json!({"error": "unknown mode"}),
             });
             out.push(r.unwrap_or(json!({"panic": true})));
@@ -297,6 +350,7 @@ fn main() {
         "sdk" => mode_sdk(&case),
         "scripted" => mode_scripted(&case),
         "registry" => mode_registry(&case),
+        "scripted_sdk" => mode_scripted_sdk(&case),
         _ => json!({"error": "unknown mode"}),
     });
     match result {
